@@ -216,6 +216,11 @@ class BaseTemplate:
         for name, function in functions.items():
             setattr(self, "_" + name, function)
 
+        # Forget the macros of a previously cooked version
+        for name in tuple(self.__dict__):
+            if name.startswith('_render_') and name[1:] not in functions:
+                del self.__dict__[name]
+
         self._cooked = True
 
         if self.keep_body:
